@@ -49,7 +49,7 @@ func TestVerifC07(t *testing.T) {
 	r.SetRule("Each case is one PRNG-generated history (appends in strict/server-allocated/trusted modes with right and wrong bases, follower applies with checkpoints, suffix truncations, bounded prefix trims, retention adoption, checkpoint stores, lease close/re-acquire, warm-cache eviction, whole-DB close+reopen, random bounded reads; about one op in 12, and half of the first ops after a lease/DB barrier, run under a countdown context that reports cancellation after the N-th poll - such an op must either report the context error and leave the log unchanged (or completely applied, decided by reading back) or return the model's answer) over 2-6 channels on one engine, run on the typed ChannelLog, the compat Engine/ChannelStore and the channel/store Factory surfaces; every result is compared to a sequential reference model and every mutation is followed by a full audit. Non-trivial = some channel saw a truncation or trim, then an accepted append, then a DB reopen (with full audit). Distinct by surface family + collapsed op-kind sequence.")
 	r.Assume("tmpfs-backed t.TempDir(); fsync semantics are not part of this check (C09)")
 	r.Assume("trusted-contiguous and server-allocated batches respect their documented caller contract (no stored duplicates / allocator-fresh ids)")
-	r.Assume("typed ChannelLog surface, random body only: payloads are non-empty and TruncateFrom never cuts below the persisted RetainedMaxSeq; both shapes are legal inputs and are exercised by the isolated probe cases (signatures typed:probe:accepted-empty-payload-row-unreadable and typed:probe:truncate-after-trim-leo-resurrected-on-reopen) so that the random histories do not all end on the same two defects")
+	r.Assume("typed ChannelLog surface: TruncateFrom is only driven at or above the adopted retention boundary (the typed API does not reject a cut below it; the compat surface does and is driven there). Empty payloads and truncation below the persisted RetainedMaxSeq are part of the random body and additionally of the probe cases (signatures typed:probe:accepted-empty-payload-row-unreadable, typed:probe:truncate-after-trim-leo-resurrected-on-reopen)")
 	r.Assume("typed StoreRetentionState is a raw setter: only states a retention adopter would write (boundary at or below the log end, RetainedMaxSeq = max(old, LEO)) are stored")
 	r.Assume("factory-twin family: the in-memory double is not driven with a retention boundary beyond its log end (it cannot represent the sparse log between adoption and trim) nor with duplicate ids/pairs (it performs no uniqueness checks) nor with follower applies indexed at or below its log end (documented duplicate-prefix skip)")
 	n := r.N(120, 900)
